@@ -28,7 +28,7 @@ def coding_cases(draw, tier, fast=None, vt=None, message=None, force_table=False
         vt_length = draw(st.one_of(st.integers(1, 4), st.integers(1, 12)))
     else:
         vt_length = vt
-    options = draw(st.sampled_from(["plain", "plain", "plain", "plain", "verbose", "path", "layout", "all"]))
+    options = draw(st.sampled_from(["plain", "plain", "plain", "plain", "verbose", "path", "layout", "all", "dtype"]))
     case = {"graph": graph, "bits": bits, "table": table, "fast": is_fast, "vt": vt_length}
     if options in ("verbose", "all"):
         case["verbose"] = True
@@ -36,6 +36,9 @@ def coding_cases(draw, tier, fast=None, vt=None, message=None, force_table=False
         case["need_path"] = True
     if options in ("layout", "all"):
         case["layout"] = draw(st.sampled_from(["F", "strided", "offset"]))
+    if options == "dtype":
+        case["layout"] = draw(st.sampled_from(["int32", "int16"]))
+        case["msg_dtype"] = draw(st.sampled_from(["int8", "uint8", "int32", "list"]))
     return case
 
 
@@ -56,7 +59,7 @@ def run_encode(case, accessor=None, budget=None, **extra):
     if table is not None and case.get("layout"):
         table = gens.relayout(table, case["layout"])
     try:
-        result = lib_call(dsw.encode, binary_message=gens.bits_of(case["bits"]), accessor=acc,
+        result = lib_call(dsw.encode, binary_message=gens.bits_of(case["bits"], case.get("msg_dtype")), accessor=acc,
                           start_index=graph["start"], is_faster=case["fast"], vt_length=case["vt"],
                           shuffles=table, need_path=need_path, verbose=bool(case.get("verbose")), **extra)
     except LookupBudgetExceeded:
@@ -110,7 +113,7 @@ def walk_classes(case, strand):
         labels.append("table_at_deg2or3")
     if case["vt"]:
         labels.append("vt")
-    for option in ("verbose", "need_path", "layout"):
+    for option in ("verbose", "need_path", "layout", "msg_dtype"):
         if case.get(option):
             labels.append("opt:" + option)
     if not strand:
